@@ -26,6 +26,24 @@ Qed.
 Theorem receipt_without_id s r : handle_receipt s r false = (s, [HReceipt (rc_uid r) 0]).
 Proof. reflexivity. Qed.
 
+(* error codes of receipts: in range they are booked as they are, out of range as DLR_ERROR_OTHER_ERROR - always inside the range *)
+Lemma receipt_code_id e : 0 <= e < STATUS_SENT -> receipt_code e = e.
+Proof. intros H. unfold receipt_code. destruct (Z.leb_spec 0 e); destruct (Z.ltb_spec e STATUS_SENT); cbn [andb]; try reflexivity; lia. Qed.
+Lemma receipt_code_range e : 0 <= receipt_code e < STATUS_SENT.
+Proof.
+  unfold receipt_code. destruct (Z.leb_spec 0 e); destruct (Z.ltb_spec e STATUS_SENT); cbn [andb]; try lia;
+    (assert (DLR_ERROR_OTHER_ERROR = 500 /\ STATUS_SENT = 65532) as [-> ->] by (split; reflexivity); lia).
+Qed.
+(* a receipt is handled like the receipt that carries the booked code *)
+Lemma receipt_code_idem e : receipt_code (receipt_code e) = receipt_code e.
+Proof. apply receipt_code_id, receipt_code_range. Qed.
+
+Definition booked (r : receipt) : receipt := {| rc_uid := rc_uid r; rc_id := rc_id r; rc_err := receipt_code (rc_err r) |}.
+Theorem receipt_booked s r b : handle_receipt s r b = handle_receipt s (booked r) b.
+Proof.
+  unfold handle_receipt, get_delivery, booked. cbn [rc_uid rc_id rc_err]. rewrite receipt_code_idem. reflexivity.
+Qed.
+
 (* a receipt naming a stored id of an unsegmented message carries that message's identity, and the id is consumed *)
 Theorem receipt_plain s r e :
   dget (rc_id r) (h_deliv s) = Some e -> dget (sm_seq (e_msg e)) (c_seg (h_corr s)) = None ->
@@ -321,7 +339,7 @@ Section Group.
     assert (forallb (fun j => is_not (ph j)) idx = false) as Fn by (apply (forallb_idx_false _ i Hi); rewrite Hp; reflexivity).
     assert (forallb (fun j => is_done (ph j)) idx = false) as Fd by (apply (forallb_idx_false _ i Hi); rewrite Hp; reflexivity).
     rewrite Fn, Fd in Hc. cbn [orb] in Hc. destruct Hc as (cell & Hcell & Hst & Hlr).
-    unfold handle_receipt, get_delivery. cbn [negb]. rewrite Hid, Hde, Hem. cbv zeta. rewrite seg_is_segment. cbn [seg sm_seq]. rewrite Hbi, Hcell.
+    unfold handle_receipt, get_delivery. cbn [negb]. rewrite Hid, Hde, Hem. cbv zeta. rewrite seg_is_segment, (receipt_code_id _ Herr). cbn [seg sm_seq]. rewrite Hbi, Hcell.
     set (ss1 := set_status cell (Z.of_nat i + 1) (rc_err rc)).
     assert (ss_status ss1 = status_of ph') as Hst1.
     { unfold ss1, set_status. cbn [ss_status]. rewrite Hst. apply (status_set ph i (PDone (rc_err rc)) Hi). }
